@@ -29,49 +29,6 @@ def _resolve(table, sel):
   return (base + ('.' + rest if rest else ''), _partial_path(imp))
 
 
-def _walk(case):
-  """yields (statement, table) for the bind / block statements of every call"""
-  if isinstance(case, dict):
-    case = case['calls']
-  for call in case:
-    table, dyn = {}, False
-    for st in call:
-      if st[0] == 'import':
-        if st[1] == '__gin__.dynamic_registration':
-          dyn = True
-        else:
-          table[_bound(st)] = st
-      elif dyn:
-        yield st, dict(table)
-
-
-def class_respelled_via_method(kind, detail, case):
-  """F22 (C19): a class already registered through one import spelling has a method configured through a
-  spelling with a different registration prefix (e.g. 'from pkgb import util' then 'import pkgb.util as u'):
-  the class is registered a second time under the new prefix, so one class ends up with two configurables."""
-  try:
-    seen = {}
-    for st, table in _walk(case):
-      names = [st[2]] + ([st[4][1]] if st[0] == 'bind' and not isinstance(st[4], int) else [])
-      for n in names:
-        r = _resolve(table, n)
-        if not r:
-          continue
-        path, prefix = r
-        parts = path.split('.')
-        # a method of class P: P was seen before under another prefix
-        for k in range(len(parts) - 1, 0, -1):
-          cls_path = '.'.join(parts[:k])
-          if cls_path in seen and seen[cls_path] != prefix and k < len(parts):
-            return True
-        seen.setdefault(path, prefix)
-        for k in range(1, len(parts)):
-          seen.setdefault('.'.join(parts[:k]), prefix)
-  except Exception:  # pylint: disable=broad-except
-    return False
-  return False
-
-
 def _walk_json(x):
   yield x
   if isinstance(x, dict):
